@@ -1641,6 +1641,13 @@ def run(ctx):
     imported(ctx, C08.rule_B)
     imported(ctx, C08.rule_A)
     imported(ctx, C08.rule_X)
+    # the adapted proposals enumerate their candidates: every candidate extends the parent's tree (outliers included),
+    # and the subtree move hands back the re-assembled whole tree (same rule objects as C08.S / F, C04.P1 / P2)
+    imported(ctx, C08.rule_S)
+    imported(ctx, C08.rule_F)
+    from . import C04
+
+    imported(ctx, C04.rule_P1)
     # remove_subtree decides "the subtree is the whole tree" by Tree equality (clades *and* outliers, C03.I1 / I2);
     # every SMC pass is handed the data order drawn from the tree, which must contain every data point (C09.P1-P4)
     from . import C03, C09
